@@ -374,7 +374,7 @@ private theorem mergeLoop_eq (sc sn : Nat) (L : List (Key × Snap)) (dst : Store
     (hn : (L.map (fun g => name g.1)).Nodup)
     (hdis : ∀ x ∈ L, ∀ y ∈ dst.groups, name y.1 ≠ name x.1) :
     mergeLoop sc sn L dst = some { dst with
-      groups := (dst.groups ++ L.takeWhile (fun g => !(g.1.cycle == sc && g.1.node == sn))) } := by
+      groups := (dst.groups ++ L.takeWhile (before sc sn)) } := by
   induction L generalizing dst with
   | nil => simp [mergeLoop]
   | cons g rest ih =>
@@ -382,11 +382,16 @@ private theorem mergeLoop_eq (sc sn : Nat) (L : List (Key × Snap)) (dst : Store
     unfold mergeLoop
     rw [parse_name g.1.cycle g.1.node g.1.label hg.1 hg.2]
     simp only []
-    by_cases hst : (g.1.cycle, g.1.node) = (sc, sn)
+    by_cases hst : atOrAfter (g.1.cycle, g.1.node) sc sn = true
     · rw [if_pos hst]
-      simp only [Prod.mk.injEq] at hst
-      simp [List.takeWhile_cons, hst.1, hst.2]
+      have hb : before sc sn g = false := by
+        unfold atOrAfter at hst; unfold before
+        simp at hst ⊢; omega
+      simp [List.takeWhile_cons, hb]
     · rw [if_neg hst]
+      have hb : before sc sn g = true := by
+        unfold atOrAfter at hst; unfold before
+        simp at hst ⊢; omega
       have hk : hasKey dst g.1 = false := by
         unfold hasKey
         rw [List.any_eq_false]
@@ -397,12 +402,7 @@ private theorem mergeLoop_eq (sc sn : Nat) (L : List (Key × Snap)) (dst : Store
       simp only [Bool.false_eq_true, if_false]
       simp only [List.map_cons, List.nodup_cons] at hn
       rw [ih { dst with groups := dst.groups ++ [g] } ho (fun x hx => hsmall x (by simp [hx])) hn.2]
-      · have hne : (g.1.cycle == sc && g.1.node == sn) = false := by
-          simp only [Prod.mk.injEq] at hst
-          by_cases h1 : g.1.cycle = sc <;> by_cases h2 : g.1.node = sn <;> simp_all
-        simp [List.takeWhile_cons]
-        simp only [Prod.mk.injEq] at hst
-        intro h1 h2; exact hst ⟨h1, h2⟩
+      · simp [List.takeWhile_cons, hb]
       · intro x hx y hy
         simp only [List.mem_append, List.mem_singleton] at hy
         rcases hy with hy | rfl
@@ -411,42 +411,29 @@ private theorem mergeLoop_eq (sc sn : Nat) (L : List (Key × Snap)) (dst : Store
           exact hn.1 (List.mem_map.mpr ⟨x, hx, heq.symm⟩)
 
 private theorem takeWhile_eq_filter (sc sn : Nat) (L : List (Key × Snap))
-    (hsorted : L.Pairwise (fun a b => lexLe (a.1.cycle, a.1.node) (b.1.cycle, b.1.node)))
-    (hpresent : ∃ g ∈ L, g.1.cycle = sc ∧ g.1.node = sn) :
-    L.takeWhile (fun g => !(g.1.cycle == sc && g.1.node == sn)) = L.filter (before sc sn) := by
+    (hsorted : L.Pairwise (fun a b => lexLe (a.1.cycle, a.1.node) (b.1.cycle, b.1.node))) :
+    L.takeWhile (before sc sn) = L.filter (before sc sn) := by
   induction L with
   | nil => simp
   | cons a t ih =>
     rw [List.pairwise_cons] at hsorted
-    by_cases ha : a.1.cycle = sc ∧ a.1.node = sn
-    · have h1 : (!(a.1.cycle == sc && a.1.node == sn)) = false := by simp [ha.1, ha.2]
-      rw [List.takeWhile_cons, h1]
+    by_cases ha : before sc sn a = true
+    · rw [List.takeWhile_cons, List.filter_cons, ha, ih hsorted.2]
+      simp
+    · have ha' : before sc sn a = false := by simpa using ha
+      rw [List.takeWhile_cons, ha']
       simp only [Bool.false_eq_true, if_false]
       symm
       rw [List.filter_eq_nil_iff]
       intro b hb
       rcases List.mem_cons.mp hb with rfl | hb
-      · unfold before; simp [ha.1, ha.2]
+      · exact ha
       · have := hsorted.1 b hb
         unfold lexLe at this
-        unfold before
+        unfold before at ha' ⊢
         simp only [] at this
-        simp
+        simp at ha' ⊢
         omega
-    · obtain ⟨g, hg, hgc, hgn⟩ := hpresent
-      have hgt : g ∈ t := by
-        rcases List.mem_cons.mp hg with rfl | h
-        · exact absurd ⟨hgc, hgn⟩ ha
-        · exact h
-      have hle := hsorted.1 g hgt
-      unfold lexLe at hle
-      simp only [hgc, hgn] at hle
-      have h1 : (!(a.1.cycle == sc && a.1.node == sn)) = true := by
-        by_cases h1 : a.1.cycle = sc <;> by_cases h2 : a.1.node = sn <;> simp_all
-      have h2 : before sc sn a = true := by
-        unfold before; simp; omega
-      rw [List.takeWhile_cons, h1, List.filter_cons, h2, ih hsorted.2 ⟨g, hgt, hgc, hgn⟩]
-      simp
 
 /-- the store invariant "no two groups with one name" -/
 def namesNodup (s : Store) : Prop := (s.groups.map (fun g => name g.1)).Nodup
@@ -475,11 +462,10 @@ theorem namesNodup_write (s s' : Store) (r : Snap) (label : List Nat) (hs : name
     rw [List.any_eq_false] at this
     simpa using this g hg
 
-/-- **merge_exact**: merging the history of `src` into a fresh database up to a restart point that
-IS one of the source's steps copies exactly the snapshots before that point (all labels), unchanged
-and in order — cycle and node numbers below 100. -/
-theorem merge_exact (src : Store) (sc sn : Nat) (hs : smallKeys src) (hn : namesNodup src)
-    (hpresent : ∃ g ∈ src.groups, g.1.cycle = sc ∧ g.1.node = sn) :
+/-- **merge_exact**: merging the history of `src` into a fresh database up to a restart point
+copies exactly the snapshots strictly before that point (all labels), unchanged and in order —
+whether or not the restart point itself is a step of the source (cycle and node numbers below 100). -/
+theorem merge_exact (src : Store) (sc sn : Nat) (hs : smallKeys src) (hn : namesNodup src) :
     mergeHistory openW src sc sn =
       some { openW with groups := (sortedGroups src).filter (before sc sn) } := by
   unfold mergeHistory
@@ -488,28 +474,25 @@ theorem merge_exact (src : Store) (sc sn : Nat) (hs : smallKeys src) (hn : names
     (fun g hg => hs g (hperm.mem_iff.mp hg))
     ((hperm.map _).nodup_iff.mpr hn)
     (fun _ _ y hy => by simp [openW] at hy)]
-  obtain ⟨g, hg, hgc⟩ := hpresent
-  rw [takeWhile_eq_filter sc sn _ (sorted_chrono src hs) ⟨g, hperm.mem_iff.mpr hg, hgc⟩]
+  rw [takeWhile_eq_filter sc sn _ (sorted_chrono src hs)]
   simp [openW]
 
-/-- the store of finding F13: steps (0,0), (0,2), (1,0) -/
+/-- a source with steps (0,0), (0,2), (1,0) (the input of the former finding F13) -/
 def f13Store : Store :=
   { openW with groups := [(⟨0, 0, []⟩, { cycle := 0, node := 0, objs := [] }),
                           (⟨0, 2, []⟩, { cycle := 0, node := 2, objs := [] }),
                           (⟨1, 0, []⟩, { cycle := 1, node := 0, objs := [] })] }
 
-/-- **without the hypothesis the conclusion fails** (F13): the restart point (0,1) is not a step of
-the source, and the later steps (0,2), (1,0) are copied too -/
+/-- the restart point (0,1) is not a step of the source: only (0,0) is copied -/
 example : (mergeHistory openW f13Store 0 1).map (fun s => s.groups.map (fun g => (g.1.cycle, g.1.node)))
-    = some [(0, 0), (0, 2), (1, 0)]
-    ∧ (sortedGroups f13Store).filter (before 0 1) = [(⟨0, 0, []⟩, { cycle := 0, node := 0, objs := [] })] := by
+    = some [(0, 0)] := by
   decide
 
 private theorem forall2_splitCopy (s : Store) (m : Nat) (keep : List (Nat × Nat))
     (hall : ∀ cn ∈ keep, (splitCopy s m cn).isSome = true) :
     List.Forall₂ (fun cn g => ∃ snap, load s ⟨cn.1, cn.2, []⟩ = some snap
         ∧ g.1 = ⟨cn.1 - m, cn.2, []⟩ ∧ g.2.objs = snap.objs ∧ g.2.node = snap.node
-        ∧ g.2.acycle = snap.acycle ∧ g.2.anode = snap.anode ∧ g.2.cycle = cn.1 - m)
+        ∧ g.2.acycle = cn.1 - m ∧ g.2.anode = snap.anode ∧ g.2.cycle = cn.1 - m)
       keep (keep.filterMap (splitCopy s m)) := by
   induction keep with
   | nil => exact List.Forall₂.nil
@@ -524,13 +507,14 @@ private theorem forall2_splitCopy (s : Store) (m : Nat) (keep : List (Nat × Nat
     exact ⟨snap, hl, rfl, rfl, rfl, rfl, rfl, rfl⟩
 
 /-- **split_exact**: a split that succeeds leaves exactly one group per kept step, in the order
-requested: the unlabelled snapshot of that step with objects, node and step attributes unchanged and
-the cycle renumbered from the least kept cycle (the documented normalisation) -/
+requested: the unlabelled snapshot of that step with objects and node unchanged and the cycle
+renumbered from the least kept cycle in the name, the state and the step attribute alike (the
+documented normalisation) — so that histories after a split are keyed by the listed steps -/
 theorem split_exact (s s' : Store) (keep : List (Nat × Nat)) (h : split s keep = some s') :
     ∃ m, (keep.map (·.1)).min? = some m ∧
       List.Forall₂ (fun cn g => ∃ snap, load s ⟨cn.1, cn.2, []⟩ = some snap
           ∧ g.1 = ⟨cn.1 - m, cn.2, []⟩ ∧ g.2.objs = snap.objs ∧ g.2.node = snap.node
-          ∧ g.2.acycle = snap.acycle ∧ g.2.anode = snap.anode ∧ g.2.cycle = cn.1 - m) keep s'.groups := by
+          ∧ g.2.acycle = cn.1 - m ∧ g.2.anode = snap.anode ∧ g.2.cycle = cn.1 - m) keep s'.groups := by
   unfold split at h
   split at h
   · simp at h
@@ -549,6 +533,14 @@ theorem split_exact (s s' : Store) (keep : List (Nat × Nat)) (h : split s keep 
   simp at h; subst h
   simp only [Bool.not_eq_true', Bool.not_eq_false] at hall
   exact forall2_splitCopy s m keep (List.all_eq_true.mp hall)
+
+/-- after a split the history is keyed by the renumbered (listed) steps -/
+example :
+    ((split { openW with groups := [(⟨1, 0, []⟩, { cycle := 1, node := 0, objs := [(7, some 5)] }),
+                                    (⟨1, 1, []⟩, { cycle := 1, node := 1, objs := [(7, some 6)] })] }
+        [(1, 0), (1, 1)]).map (fun s => (steps s, historyDb s 7 0)))
+      = some ([(0, 0), (0, 1)], [((0, 0), 5), ((0, 1), 6)]) := by
+  decide
 
 /-! ## The file an aborted run leaves behind -/
 
